@@ -359,13 +359,39 @@ fn unused_conflict_path(path: &Path, timestamp: &str, side: &str) -> PathBuf {
 }
 
 /// Copy a file (simple implementation, will use transport layer in full version)
+///
+/// The copy is written under a working name next to the target and renamed over it. Writing
+/// onto the target itself went through a symbolic link sitting there (into another synchronised
+/// file, or out of the tree) and into every other hard link of a multiply-linked file.
 fn copy_file(src: &Path, dst: &Path) -> Result<u64> {
     // Create parent directory if needed
     if let Some(parent) = dst.parent() {
         std::fs::create_dir_all(parent)?;
     }
 
-    std::fs::copy(src, dst).map_err(Into::into)
+    // a working name that no file of the user's has
+    let plain = crate::temp_file::temp_path_for(dst);
+    let working = if std::fs::symlink_metadata(&plain).is_err() {
+        plain
+    } else {
+        (1u32..)
+            .map(|n| crate::temp_file::temp_path_for(&dst.with_file_name(format!(
+                "{}.{}",
+                dst.file_name().unwrap_or_default().to_string_lossy(),
+                n
+            ))))
+            .find(|candidate| std::fs::symlink_metadata(candidate).is_err())
+            .unwrap_or(plain)
+    };
+
+    let copied = std::fs::copy(src, &working).and_then(|bytes| {
+        std::fs::rename(&working, dst)?;
+        Ok(bytes)
+    });
+    if copied.is_err() {
+        let _ = std::fs::remove_file(&working);
+    }
+    copied.map_err(Into::into)
 }
 
 /// Delete a file
